@@ -20,7 +20,7 @@ SeqToSet(s) == { s[i] : i \in 1..Len(s) }
 TrNone == {}
 Race_no == {{}}
 Def_both == BOOLEAN
-TrVerdicts == {"PASS", "FAIL", "TIMEOUT", "SILENCE", "BYPASS", "RAISE", "T", "F"}
+TrVerdicts == {"PASS", "FAIL", "TIMEOUT", "SILENCE", "BYPASS", "RAISE", "NONE", "FALSEV", "T", "F"}
 TrReasons == 1..5
 TrEnvs == {"bare", "lp", "lph", "lpo"}
 TrJunk == {"junk"}
